@@ -21,6 +21,7 @@ things must agree:
 "projection" symptoms.  (b) vs (c) cross-validates the harness itself.
 """
 import itertools
+import os
 from functools import lru_cache
 from math import factorial
 
@@ -334,6 +335,75 @@ def tseitin_charges(case):
 
 
 _REUSED = {}
+CLI_FAMS = ('iso', 'auto', 'ec', 'tiling', 'kclique', 'kcliquebin', 'domset', 'kcolor', 'subgraph')
+
+
+def build_cli(case):
+    """The same case through the command line: the graphs are written to
+    files (DIMACS edge format, the graph without vertices included) and the
+    sub-command is run in-process; flags select the variants."""
+    import inspect
+    import random
+    import shutil
+    import tempfile
+    import cnfgen
+    import cnfgen.clitools.msg as msgmod
+    from cnfgen.clitools.cnfgen import cli
+    fam = case['fam']
+    d = tempfile.mkdtemp(prefix='c02_')
+
+    def gfile(name, n, edges):
+        path = os.path.join(d, name)
+        with open(path, 'w') as f:
+            f.write('c graph of the case\np edge %d %d\n' % (n, len(edges)) +
+                    ''.join('e %d %d\n' % (u, v) for (u, v) in edges))
+        return ['dimacs', path]
+    g1 = gfile('g1.txt', case['n'], E(case))
+    if fam == 'iso':
+        argv = ['iso'] + g1 + ['-e'] + gfile('g2.txt', case['n2'], E(case, 'E2'))
+        if 'nontrivial' in case:
+            raise Unsupported()
+    elif fam == 'auto':
+        argv = ['iso'] + g1
+    elif fam == 'ec':
+        argv = ['ec'] + g1
+    elif fam == 'tiling':
+        argv = ['tiling'] + g1
+    elif fam == 'kclique':
+        argv = ['kclique', str(case['k'])] + g1 + ([] if case['symbreak'] else ['--no-symmetry-breaking'])
+    elif fam == 'kcliquebin':
+        dflt = inspect.signature(cnfgen.BinaryCliqueFormula).parameters['symbreak'].default
+        if case['symbreak'] != dflt:
+            raise Unsupported()
+        argv = ['kcliquebin', str(case['k'])] + g1
+    elif fam == 'domset':
+        argv = ['domset'] + (['--alternative'] if case['alternative'] else []) + [str(case['d'])] + g1
+    elif fam == 'kcolor':
+        dflt = inspect.signature(cnfgen.GraphColoringFormula).parameters['functional'].default
+        if case['functional'] != dflt or case['k'] < 1:
+            raise Unsupported()
+        argv = ['kcolor', str(case['k'])] + g1
+    elif fam == 'subgraph':
+        sig = inspect.signature(cnfgen.SubgraphFormula).parameters
+        if case['induced'] != sig['induced'].default or case['symbreak'] != sig['symbreak'].default:
+            raise Unsupported()
+        argv = ['subgraph', '-G'] + g1 + ['-H'] + gfile('g2.txt', case['n2'], E(case, 'E2'))
+    else:
+        raise Unsupported()
+    st = random.getstate()
+    try:
+        if hasattr(msgmod, '_prefix'):
+            msgmod._prefix = ''
+        return cli(['cnfgen', '-q'] + argv, mode='formula')
+    finally:
+        random.setstate(st)
+        if hasattr(msgmod, '_prefix'):
+            msgmod._prefix = ''
+        shutil.rmtree(d, ignore_errors=True)
+
+
+class Unsupported(Exception):
+    """the case has no command line form"""
 
 
 def build(case):
@@ -341,6 +411,8 @@ def build(case):
     fc = formula_class(case)
     fam = case['fam']
     src = case.get('src', 'cnfgen')
+    if src == 'cli':
+        return build_cli(case)
     if src == 'reused' and 'G' not in _REUSED:
         # The graph object was already used: the same generator was run on it
         # when it differed by one edge, then the object was edited through
@@ -750,7 +822,17 @@ def _symptoms(case, R=None):
     X = expectation(case)
     try:
         F = build(case)
+    except Unsupported:
+        if R is not None:
+            R.stats['cli:case_has_no_command_line_form'] += 1
+        return out
     except Exception as e:
+        if case.get('src') == 'cli' and type(e).__name__ == 'CLIError':
+            # the command line accepts a narrower domain than the library
+            # (positive k ...) and reports the library's refusals in its own way
+            if R is not None:
+                R.stats['cli:refused_by_the_command_line'] += 1
+            return out
         if X.error is not None and isinstance(e, X.error[1]):
             if R is not None:
                 R.outcomes['documented_error_raised'] += 1
@@ -1105,7 +1187,7 @@ def cases(tier, seed):
     # ---- variants: OPB class / networkx input / reversed insertion ------
     vn = 4 if thorough else 3
     variants = [{'cls': 'OPB'}, {'src': 'nx'}, {'src': 'rev'}, {'cls': 'OPB', 'src': 'nx'},
-                {'src': 'grown'}, {'src': 'reused'}, {'src': 'nxt'}]
+                {'src': 'grown'}, {'src': 'reused'}, {'src': 'nxt'}, {'src': 'cli'}]
     small = list(scope.simple_graphs_upto(3))
     for var in variants:
         for n, es in scope.simple_graphs_upto(4 if var == {'cls': 'OPB'} else vn):
